@@ -9,6 +9,7 @@ CONSTANTS
   History = TRUE
   DoEmit = TRUE
   Bug = "none"
+  Hist = 0
   Shape = "tree"
 SYMMETRY Sym
 INVARIANT TypeOK
